@@ -289,27 +289,37 @@ def repo_head():
 
 def cmd_run(args):
     defs = args.D or []
-    flags = []
-    inst = Instance(args.harness, cfg=args.cfg, defs=defs, cap=args.cap, rss=args.rss, flags=flags)
+    names = []
+    for pat in args.harness:
+        import fnmatch
+        m = [n for n in registry.HARNESSES if fnmatch.fnmatch(n, pat)]
+        names += m if m else [pat]
+    insts = [Instance(n, cfg=args.cfg, defs=defs, cap=args.cap, rss=args.rss) for n in names]
     workdir = os.path.join(core.BUILD_ROOT, "run-%d" % os.getpid())
     os.makedirs(workdir, exist_ok=True)
+    bad = 0
     try:
-        run_instances([inst], workdir, use_cache=not args.nocache, witness=not args.nowitness)
-        if inst.build_error:
-            print(inst.build_error)
-            return 2
-        q = inst.query
-        print("verdict:", q.verdict, q.note)
-        for f in q.failed:
-            print("  FAILED:", f["description"], "@", f["location"])
-            if args.verbose:
-                print(json.dumps(f["inputs"], indent=1)[:6000])
-        if q.verdict == "fail" and args.replay:
-            print(json.dumps(replay_mod.native_replay(inst, q, workdir), indent=1))
+        run_instances(insts, workdir, use_cache=not args.nocache, witness=not args.nowitness)
+        for inst in insts:
+            if inst.build_error:
+                print(inst.label, "BUILD ERROR", inst.build_error)
+                bad += 1
+                continue
+            q = inst.query
+            if q.verdict != "pass":
+                bad += 1
+                print("verdict:", inst.label, q.verdict, q.note)
+            for f in q.failed:
+                print("  FAILED:", f["description"], "@", f["location"])
+                if args.verbose and f.get("inputs"):
+                    print("   inputs:", replay_mod.value_to_c(f["inputs"])[:3000])
+            if q.verdict == "fail" and args.replay:
+                r = replay_mod.native_replay(inst, q, workdir)
+                print("  native replay:", r.get("status"), r.get("detail"), r.get("output", "")[-800:] if args.verbose else "")
     finally:
         if not args.keep:
             shutil.rmtree(workdir, ignore_errors=True)
-    return 0 if q.verdict == "pass" else 1
+    return 0 if not bad else 1
 
 
 def cmd_list(args):
@@ -341,7 +351,7 @@ def main(argv):
     c.add_argument("property")
     c.add_argument("--tier", default=None)
     r = sub.add_parser("run")
-    r.add_argument("harness")
+    r.add_argument("harness", nargs="+")
     r.add_argument("--cfg", default="s")
     r.add_argument("-D", action="append")
     r.add_argument("--cap", type=int, default=None)
